@@ -14,7 +14,8 @@ import tempfile
 from ..runner import Engine, Outcome
 
 PROPERTY = "C20"
-RULE = ("Hypothesis generates (file bytes 0-300, offset, explicit size <= remaining, buffersize 1-40, "
+RULE = ("Hypothesis generates (file bytes 0-300, offset, explicit size <= remaining or - one case in five - an open-ended "
+        "window with size=None where steps past the still unknown end are skipped, buffersize 1-40, "
         "max_buffers 2-5, backing object BytesIO / unbuffered file / data=, a clock sequence for LRU stamps) "
         "and a sequence of up to 40 read/readall/peek/seek/tell operations; every step is compared with "
         "io.BytesIO over the window. Non-trivial: a read or peek that spans >= 2 buckets after at least one "
